@@ -327,6 +327,8 @@ def exhaustive_prefixes(maxsize: int, depth: int) -> list[list[tuple[str, int]]]
 def _adversarial_size(rng: random.Random, model: Any, cap: int) -> int:
     gaps = model.gaps()
     r = rng.random()
+    if r < 0.02:
+        return rng.choice([cap + 1, 2 * cap, 2**63, 2**64 - 1])  # larger than the whole data region
     if gaps and r < 0.25:
         return max(1, rng.choice(gaps)[1])  # exactly one of the gaps
     if gaps and r < 0.35:
@@ -853,10 +855,10 @@ def main(tier: str, seed: int) -> int:
     if quick:
         exh = [(8, 5, 8), (16, 5, 8), (32, 5, 8)]
     else:
-        exh = [(12, 6, 8), (33, 6, 8), (64, 7, 8)]
+        exh = [(12, 6, 8), (33, 6, 8), (64, 6, 8), (24, 7, 5)]
     for data, maxlen, maxsize in exh:
         prefixes = exhaustive_prefixes(maxsize, 2 if maxlen >= 7 else 1)
-        ngroups = 2 if quick else (32 if maxlen >= 7 else 4)
+        ngroups = 2 if quick else (16 if maxlen >= 7 else 6)
         for part in shard.split(prefixes, ngroups):
             jobs.append({"kind": "exh", "tier": tier, "seed": seed, "data": data, "maxlen": maxlen, "maxsize": maxsize, "prefixes": part})
         chk.exhaustive[f"alloc_free_sequences:data={data}B,sizes=1..{maxsize},len<={maxlen}"] = True
